@@ -3,9 +3,9 @@ CONSTANTS
   Letters = {97, 98, 99}
   MaxRules = 2
   MaxLen = 3
-  Ops = {0, 1, 2, 3, 5, 6, 7, 11, 128}
+  Ops = {0, 1, 2, 3, 7, 11, 128}
   StopAtHit = TRUE
-  CheckFlags = FALSE
+  CheckFlags = TRUE
   Bug = ""
   Deviations = {}
 INVARIANTS Spelling RefinesCursor NoHitIfDone HitIfBound PairExact LoopReportExact
